@@ -15,7 +15,7 @@ var serveExplain = map[string]string{
 	"C10": "Structural necessary conditions of the keep-alive decision in the serve loop: (R1) the condition guarding SetConnectionClose depends (through phis, && / ||, and helper functions) on each documented source: DisableKeepalive, request and response Connection: close, MaxRequestsPerConn, CloseOnShutdown+stop, Expect/Continue rejection, unread streamed body; (R2) on every path: decision true => Connection: close is set on the response object that is written and no further iteration follows; decision false on a non-HTTP/1.1 request => Connection: keep-alive is set; (R2d) the loop is left after a written response, on the server's own decision, only when that response carried Connection: close; (R3) the decision does not read per-request bookkeeping from a ctx that was swapped in after the handler (timeout path); (R4) every comparison of a header value with the 'close' token - in the request and response head parsers and in the header setters - is made by a case-insensitive, list-aware matcher, never by an exact byte comparison, so 'Connection: Close' and 'keep-alive, close' count as close on both the server and the client side. Not decided: what the matcher accepts as token separators, client side reuse beyond the parsed flag.",
 	"C11": "Structural necessary conditions of 'no state leaks between requests': (E7) every leaf field of Request, Response, RequestHeader, ResponseHeader, URI, Args, Cookie and RequestCtx is assigned (or known nil, or reset through its pointee) on every path of the type's reset method including callees, or is in a table of reasoned exemptions (scratch buffers, configuration, self pointers) - a newly added field is a violation until reset or exempted; (R-loop) every variable of the serve loop that survives an iteration is re-assigned before it is read in a later iteration on every path, or the loop provably ends; (R-reset) every path from the handler to the next iteration passes Request.Reset and Response.Reset; (R-ctx) every field of RequestCtx that a handler can set through an exported method and that the serve loop reads (hijack handler, no-response switch, timeout response) is cleared, found zero, or left behind with a replaced ctx on every path to the next request - neither Request.Reset nor Response.Reset touches them. Not decided: that getters return exactly what the current request sent.",
 	"C14": "The sequence of ConnState values the serve loop reports, decided on every path of the loop as an automaton: StateActive only follows New/Idle, StateIdle only follows Active, the handler and the response write happen in Active, an iteration that continues ends in Idle, and StateActive is only reported on a path on which a read of at least one byte succeeded; (R3) every function that runs the serve loop itself and reports states (ServeConn) reports StateNew before serving and, on every path to its return after serving, exactly one terminal state - StateHijacked exactly when the loop returned errHijacked, StateClosed otherwise. Not decided: the reports made by the worker pool (C13.R2 decides its terminal action) and cross-goroutine ordering.",
-	"C15": "Structural necessary conditions of graceful shutdown inside the serve loop, on every path: the per-connection idle marker is zero while the handler runs (so Shutdown's idle closer cannot close a busy connection), it is set non-zero after the response before the connection waits for the next request, the stop flag is tested after every response, and (R5) a response that was written into the connection writer is flushed before the writer is dropped whenever the serve function ends with a nil result (shutdown, client stopped sending) - so no answered request loses its response on a graceful end. Not decided: Shutdown's own listener/poll loop, liveness, interleavings.",
+	"C15": "Structural necessary conditions of graceful shutdown inside the serve loop, on every path: the per-connection idle marker is zero while the handler runs (so Shutdown's idle closer cannot close a busy connection), it is set non-zero after the response before the connection waits for the next request, the stop flag is tested after every response, and (R5) a response that was written into the connection writer is flushed before the writer is dropped whenever the serve function ends with a nil result (shutdown, client stopped sending) - so no answered request loses its response on a graceful end; (R6) in the shutdown code the Done channel is closed only under a false 'already closed' flag and the flag is raised after it, and wherever the channel reference is dropped the flag is lowered again on every path - otherwise the next Serve/Shutdown cycle of the same Server never closes its requests' Done channels. Not decided: Shutdown's poll loop and listener handling, liveness, interleavings.",
 	"C16": "Structural necessary conditions for timed-out handlers, on every path of the serve loop's timeoutResponse != nil branch: the response is written from a freshly acquired ctx into which the stored response was copied (R1); the timed-out ctx is never released to the pool by the loop (R2); no per-request field the loop stored on the old ctx is read from the fresh one (R3); (R6) the concurrency slot a timeout wrapper takes from Server.concurrencyCh is taken without blocking (429 otherwise), and it is given back only by code that has run the wrapped handler to its end - in the goroutine that calls it, after the call - exactly once; never by the wrapper's own frame, which returns when the timeout fires while the handler still runs; the semaphore field is read only by code that creates the channel when it is missing (a nil channel would turn every call into a 429); (R7) every bookkeeping field the serve function keeps on the ctx (connection id, connection time, request number, request time) is assigned on every path from each point where the ctx object is acquired or replaced to the handler dispatch, so requests served after a timed-out one see them. Not decided: what the late handler does with the old ctx, scheduling.",
 	"C17": "Structural necessary conditions of connection hijacking, on every path: the response is written and flushed before the hand-off unless HijackSetNoResponse is in effect (R1); after 'go hijackConnHandler' the serve function performs no I/O on the connection and releases neither ctx nor the handed-over reader (R3); it returns errHijacked exactly on hand-off paths (R4); hijackConnHandler closes the connection after the user's handler unless KeepHijackedConns and releases the ctx (R5); hijack state a handler put on the ctx without hijacking does not survive into a later request of the connection (R6). Not decided: byte-exact hand-over of buffered data, callers' reaction to errHijacked.",
 }
@@ -43,6 +43,9 @@ func init() {
 			}
 			if id == "C10" {
 				closeTokenRule(p, r)
+			}
+			if id == "C15" {
+				doneChannelRule(p, r)
 			}
 			if id == "C02" {
 				limitedReaderDrainRule(p, r)
@@ -805,7 +808,6 @@ func timeoutSemaphoreRule(p *Prog, r *Report) {
 	r.Floor("R6", "releases of Server.concurrencyCh", nrel, 1)
 }
 
-
 // C10.R4: 'close' is a case-insensitive token that may be one element of a list.
 func closeTokenRule(p *Prog, r *Report) {
 	n := 0
@@ -833,4 +835,63 @@ func closeTokenRule(p *Prog, r *Report) {
 		})
 	}
 	r.Floor("R4", "comparisons of header values with the 'close' token", n, 4)
+}
+
+// C15.R6: the Done channel and its 'closed' flag move together.
+func doneChannelRule(p *Prog, r *Report) {
+	isFlagStore := func(i ssa.Instruction, val string) bool {
+		st, ok := i.(*ssa.Store)
+		if !ok {
+			return false
+		}
+		base, fv := fieldOfAddr(st.Addr)
+		if fv == nil || fv.Name() != "doneClosed" || typeNameOf(base) != "Server" {
+			return false
+		}
+		c, isC := st.Val.(*ssa.Const)
+		return isC && c.Value != nil && c.Value.ExactString() == val
+	}
+	nclose, ndrop := 0, 0
+	for _, fn := range p.funcsIn("") {
+		for _, b := range fn.Blocks {
+			for _, in := range b.Instrs {
+				switch w := in.(type) {
+				case *ssa.Call:
+					bi, ok := w.Call.Value.(*ssa.Builtin)
+					if !ok || bi.Name() != "close" || len(w.Call.Args) != 1 {
+						continue
+					}
+					if base, fv := loadedField(w.Call.Args[0]); fv == nil || fv.Name() != "done" || typeNameOf(base) != "Server" {
+						continue
+					}
+					nclose++
+					guarded := false
+					for _, g := range guardsOf(b) {
+						if strings.Contains(g.Atom, "Server.doneClosed") && !g.Pol {
+							guarded = true
+						}
+					}
+					r.Check("R6", funcName(fn)+": the Done channel is closed only when the 'already closed' flag is false", guarded, p.Pos(w.Pos()),
+						"close(s.done) is not control-dependent on !s.doneClosed: a second Shutdown would close a closed channel and panic")
+					hit, path := reachAvoiding(fn, in, isReturn, func(i ssa.Instruction) bool { return isFlagStore(i, "true") }, nil)
+					r.Check("R6", funcName(fn)+": the flag is raised after the Done channel was closed", hit == nil, p.Pos(w.Pos()),
+						"a return is reachable after close(s.done) without s.doneClosed = true", blocksString(p, path)...)
+				case *ssa.Store:
+					base, fv := fieldOfAddr(w.Addr)
+					if fv == nil || fv.Name() != "done" || typeNameOf(base) != "Server" || !isNilConst(w.Val) {
+						continue
+					}
+					if _, fresh := base.(*ssa.Alloc); fresh {
+						continue
+					}
+					ndrop++
+					hit, path := reachAvoiding(fn, in, isReturn, func(i ssa.Instruction) bool { return isFlagStore(i, "false") }, nil)
+					r.Check("R6", funcName(fn)+": dropping the Done channel lowers the 'already closed' flag on every path", hit == nil, p.Pos(w.Pos()),
+						"s.done is set to nil and a return is reachable without s.doneClosed = false: after the next Serve the flag still says 'closed', so the next Shutdown never closes the new channel and RequestCtx.Done() of in-flight requests stays open", blocksString(p, path)...)
+				}
+			}
+		}
+	}
+	r.Floor("R6", "close(Server.done) sites", nclose, 1)
+	r.Floor("R6", "sites that drop Server.done", ndrop, 1)
 }
